@@ -34,6 +34,13 @@ func (e *Engine) GenUnit(fn *ssa.Function) (u *Unit) {
 	if fc != nil && fc.Flags["safety"] == "on" {
 		g.safety = true
 	}
+	if fc != nil {
+		if why, trusted := fc.Flags["trusted"]; trusted {
+			// the contract is used by callers but the body is not verified: an explicit assumption
+			u.Assumptions = append(u.Assumptions, "TRUSTED contract (body NOT verified): "+FullName(fn)+" — "+why)
+			return u
+		}
+	}
 	g.old = &State{m: map[string]string{}}
 	g.old0 = &State{m: map[string]string{}}
 	g.stateVar("G.alloc", "Int")
